@@ -64,3 +64,15 @@ Theorem register_outcome_sound : forall s c,
   end.
 Proof. exact register_outcome_sound_thm. Qed.
 Print Assumptions register_outcome_sound.
+
+Theorem lts_traces_accepted : forall ps tr S,
+  checked ps -> exec_trace (start ps) tr S ->
+  mon_run init_state tr = Some (fst S) /\ viol (fst S) = false /\
+  (final S -> trace_ok tr = true).
+Proof. exact lts_traces_accepted_thm. Qed.
+Print Assumptions lts_traces_accepted.
+
+Theorem monitor_keeps_exclusion : forall s t e s' r u,
+  mon_step s t e = Some s' -> own s r = Some u -> own s' r = Some u \/ (own s' r = None /\ u = t).
+Proof. exact mon_step_excl. Qed.
+Print Assumptions monitor_keeps_exclusion.
